@@ -71,14 +71,20 @@ package ignore
 // with exactly that line's codes and the scope of its placement (asserted at the one call of IgnoreSet.Add).
 // Not claimed: that every @ignore line of a kept file yields a marker (the skip paths are the two pre-filters, discharged
 // as language inclusions under C15, and parseIgnoreAnnotation == nil, whose contract says "not an @ignore line").
+// completeness: every @ignore line (with at least one code) of a kept file has a marker anchored at the comment (it
+// starts at the comment, or - inline form - ends at the comment's end); that each marker carries exactly its line's codes
+// and scope is the call-site assertion below
+//@ pure func hasMarker(set *util.IgnoreSet, cm *ast.Comment) bool = set.Initialized && (exists j int :: 0 <= j && j < len(set.Markers) && (set.Markers[j].StartPos == cm.Pos() || set.Markers[j].EndPos == cm.End()))
+//@ pure func groupDone(set *util.IgnoreSet, g *ast.CommentGroup, n int) bool = forall k int :: 0 <= k && k < n && k < len(g.List) && isIgnoreLine(g.List[k].Text) ==> hasMarker(set, g.List[k])
+//@ pure func fileDone(set *util.IgnoreSet, f *ast.File, n int) bool = forall g int :: 0 <= g && g < n && g < len(f.Comments) ==> groupDone(set, f.Comments[g], len(f.Comments[g].List))
 //@ func ReadIgnoreAnnotations
-//@   merge
 //@   props C07 C08 C14 C17 C12 C10
 //@   requires cfg != nil && pass.Fset != nil
 //@   fresh
 //@   assigns nothing
 //@   ensures result != nil && result.Initialized == (len(cfg.ExcludeChecks) > 0 || len(result.Markers) > 0) && isetInv(result)
 //@   ensures forall t string :: contains(result.moduleIgnores, t) <==> contains(cfg.ExcludeChecks, t)
+//@   ensures forall f *ast.File :: contains(pass.Files, f) && !skipFile(cfg, pass, f) ==> fileDone(result, f, len(f.Comments))
 //@   at call IgnoreSet.Add#1 assert !skipFile(cfg, pass, file) && contains(pass.Files, file) && isIgnoreLine(comment.Text) && (forall x string :: contains(annotation.Codes, x) <==> listHas(ignCodesOf(comment.Text), true, x)) && scopeOK(pass, file, comment, annotation.StartPos, annotation.EndPos)
 //@   loop 1 frame
 //@   loop 2 frame
@@ -89,3 +95,9 @@ package ignore
 //@   loop 2 invariant forall t string :: contains(ignoreSet.moduleIgnores, t) <==> contains(cfg.ExcludeChecks, t)
 //@   loop 3 invariant ignoreSet != nil && fresh(ignoreSet) && isetInv(ignoreSet) && ignoreSet.Initialized == (len(cfg.ExcludeChecks) > 0 || len(ignoreSet.Markers) > 0) && (ignoreSet.CodeIndex != nil ==> fresh(ignoreSet.CodeIndex))
 //@   loop 3 invariant forall t string :: contains(ignoreSet.moduleIgnores, t) <==> contains(cfg.ExcludeChecks, t)
+//@   loop 1 invariant forall k int :: 0 <= k && k < $i ==> fileDone(ignoreSet, $seq[k], len($seq[k].Comments))
+//@   loop 2 invariant forall k int :: 0 <= k && k < $i1 ==> fileDone(ignoreSet, $seq1[k], len($seq1[k].Comments))
+//@   loop 2 invariant fileDone(ignoreSet, file, $i)
+//@   loop 3 invariant forall k int :: 0 <= k && k < $i1 ==> fileDone(ignoreSet, $seq1[k], len($seq1[k].Comments))
+//@   loop 3 invariant fileDone(ignoreSet, file, $i2)
+//@   loop 3 invariant groupDone(ignoreSet, commentGroup, $i)
